@@ -7,6 +7,7 @@ package coinset
 import (
 	"container/list"
 	"errors"
+	"math"
 	"sort"
 
 	"github.com/gcash/bchd/chaincfg/chainhash"
@@ -285,7 +286,13 @@ func (s MinPriorityCoinSelector) CoinSelect(targetValue bchutil.Amount, coins []
 				if newMaxInputs > numLow {
 					newMaxInputs = numLow
 				}
-				neededValueAge := (s.MinAvgValueAgePerInput * int64(allHigh.Num()+numLow)) - allHigh.TotalValueAge()
+				numInputs := int64(allHigh.Num() + numLow)
+				if s.MinAvgValueAgePerInput > math.MaxInt64/numInputs {
+					// the total value age this many inputs would need does
+					// not fit an int64, so no set of coins can supply it
+					continue
+				}
+				neededValueAge := (s.MinAvgValueAgePerInput * numInputs) - allHigh.TotalValueAge()
 				newMinAvgValueAge := neededValueAge / int64(numLow)
 				if neededValueAge > 0 && neededValueAge%int64(numLow) != 0 {
 					// round up so the combined average cannot fall short
